@@ -123,6 +123,7 @@ impl Local {
     }
     #[inline]
     pub fn eval(&mut self, n: u64) {
+        PROGRESS.fetch_add(1, std::sync::atomic::Ordering::Relaxed);
         if !self.frozen {
             self.evaluations += n;
         }
@@ -242,6 +243,56 @@ impl Report {
 }
 
 // ---------------------------------------------------------------------------------------------
+// watchdog: a library call that never returns must not hang the check
+
+/// bumped by every oracle evaluation of every worker thread
+pub static PROGRESS: std::sync::atomic::AtomicU64 = std::sync::atomic::AtomicU64::new(0);
+
+/// failures seen so far (unshrunk, recorded at first sight): only used if the watchdog has to end the run
+static EARLY: std::sync::Mutex<Vec<(String, String, Value)>> = std::sync::Mutex::new(Vec::new());
+
+fn early_push(sub: &str, msg: &str, case: Value) {
+    if let Ok(mut e) = EARLY.lock() {
+        if e.len() < 8 {
+            e.push((sub.to_string(), msg.to_string(), case));
+        }
+    }
+}
+
+/// When no worker thread has completed an evaluation for `limit_s` seconds (VERIF_WATCHDOG_S, default
+/// 600) the run is ended: a minimal report with the failures seen so far (unshrunk) is written to `out`
+/// and the process exits with status 3 ("report written, infrastructure problem"; run.py reports the
+/// recorded violations and otherwise exit 2 - a hang by itself is never reported as a violation).
+pub fn start_watchdog(what: String, out: String, ctx_json: Value) {
+    let limit_s = std::env::var("VERIF_WATCHDOG_S").ok().and_then(|s| s.parse::<u64>().ok()).unwrap_or(600);
+    std::thread::spawn(move || {
+        let mut last = PROGRESS.load(std::sync::atomic::Ordering::Relaxed);
+        let mut since = std::time::Instant::now();
+        loop {
+            std::thread::sleep(std::time::Duration::from_secs(2));
+            let now = PROGRESS.load(std::sync::atomic::Ordering::Relaxed);
+            if now != last {
+                last = now;
+                since = std::time::Instant::now();
+            } else if since.elapsed().as_secs() >= limit_s {
+                eprintln!("WATCHDOG: {what}: no oracle evaluation completed for {limit_s} s (a call into the library does not return, or the machine is starved); inconclusive");
+                let early = EARLY.lock().map(|e| e.clone()).unwrap_or_default();
+                let mut rep = ctx_json.clone();
+                rep["evaluations"] = json!(now);
+                rep["distinct_nontrivial"] = json!(0);
+                rep["rule"] = json!("");
+                rep["subchecks"] = json!({});
+                rep["samples"] = json!([]);
+                rep["wall_s"] = json!(0.0);
+                rep["notes"] = json!([format!("watchdog: no evaluation completed for {limit_s} s; the run was ended; violations listed are unshrunk first sightings")]);
+                rep["violations"] = Value::Array(early.iter().map(|(s, m, c)| json!({"subcheck": s, "message": format!("(before a hang ended the run) {m}"), "case": c})).collect());
+                let _ = std::fs::write(&out, serde_json::to_string(&rep).unwrap_or_default());
+                std::process::exit(3);
+            }
+        }
+    });
+}
+
 // panic capture
 
 thread_local! {
@@ -375,6 +426,9 @@ pub fn run_prop<C, S>(
                             return Ok(());
                         }
                     }
+                    if !l.frozen {
+                        early_push(sub, &f.message, to_json(&case));
+                    }
                     l.frozen = true;
                     let msg = f.message.clone();
                     *last_fail.borrow_mut() = Some(f);
@@ -462,6 +516,9 @@ pub fn run_prop_jobs<J, C, S>(
                             }
                             return Ok(());
                         }
+                    }
+                    if !l.frozen {
+                        early_push(sub, &f.message, to_json(job, &case));
                     }
                     l.frozen = true;
                     Err(TestCaseError::fail(f.message))
